@@ -556,6 +556,15 @@ func runSession(o *rec, p *sessPlan) {
 	timedOut := false
 	failed := false
 	sdone := false
+	// idle detection: once every sender has returned from its last Send, the bytes received on both
+	// sides must keep moving until the last message is in. 60 polls (15 s) in a row without a single
+	// byte received on either side, no error reported and final messages still missing = the
+	// connection went idle with accepted messages undelivered. (The 180 s watchdog stays: inconclusive.)
+	idle := ""
+	idlePolls := 0
+	var lastBytes int64 = -1
+	poll := time.NewTicker(250 * time.Millisecond)
+	defer poll.Stop()
 	for {
 		sa, sb, ea, eb := state()
 		if ea+eb > 0 {
@@ -571,15 +580,35 @@ func runSession(o *rec, p *sessPlan) {
 		case <-sendersDone:
 			sdone = true
 			sendersDone = nil
+		case <-poll.C:
+			if sdone {
+				stA, stB := doStatus(A.mc), doStatus(B.mc)
+				b := stA.RecvMonitor.Bytes + stB.RecvMonitor.Bytes
+				if b == lastBytes {
+					idlePolls++
+				} else {
+					idlePolls, lastBytes = 0, b
+				}
+				if idlePolls >= 60 {
+					q := ""
+					for _, st := range []p2p.ConnectionStatus{stA, stB} {
+						for _, c := range st.Channels {
+							q += fmt.Sprintf(" ch%02X:queue=%d", c.ID, c.SendQueueSize)
+						}
+						q += " |"
+					}
+					idle = fmt.Sprintf("every Send had returned, %d of %d final messages A->B and %d of %d B->A had arrived, then not one byte was received on either side during 60 status polls 250 ms apart and no error was reported; send queues:%s", sb, len(p.AB), sa, len(p.BA), q)
+				}
+			}
 		case <-watchdog:
 			timedOut = true
 		}
-		if timedOut {
+		if timedOut || idle != "" {
 			break
 		}
 	}
 	atomic.StoreInt32(&dead, 1)
-	if failed || timedOut {
+	if failed || timedOut || idle != "" {
 		stopConns(o, A.mc, B.mc)
 		c1.Close()
 		c2.Close()
@@ -593,6 +622,9 @@ func runSession(o *rec, p *sessPlan) {
 	o.Nontrivial("c:" + lib.Hash12(p.ID, p.Transport, p.Seed))
 	if timedOut {
 		o.Inconcl(fmt.Sprintf("mconn session %d: watchdog (final messages of some sender never arrived and no error was reported)", p.ID))
+	}
+	if idle != "" {
+		o.Violation("accepted-message-never-arrived:connection-idle-with-undelivered-messages", fmt.Sprintf("mconn session %d: %s", p.ID, idle), map[string]interface{}{"session": p})
 	}
 	if failed {
 		A.mtx.Lock()
